@@ -8,6 +8,7 @@ import (
 	"encoding/json"
 	"fmt"
 	"reflect"
+	"sort"
 	"strconv"
 	"strings"
 	"sync"
@@ -238,7 +239,12 @@ func runC03(c *ctx) {
 		env := NewEnv(cfg)
 		var batch []map[string]any
 		for i := 0; i < 2+r.IntN(4); i++ {
-			batch = append(batch, map[string]any{"msg": "same line", "n": map[string]any{"k": []any{"v", 1}}})
+			if g%2 == 1 {
+				// entry-less rows: the smallest stored bytes there are ("{}"), several of them
+				batch = append(batch, map[string]any{})
+			} else {
+				batch = append(batch, map[string]any{"msg": "same line", "n": map[string]any{"k": []any{"v", 1}}})
+			}
 			if r.Chance(0.3) {
 				batch = append(batch, map[string]any{"msg": "other", "i": i})
 			}
@@ -264,6 +270,17 @@ func runC03(c *ctx) {
 				}
 			}
 		}
+		// a later query is not affected by what the caller did to the rows of an earlier one
+		sort.Strings(snaps)
+		var again []string
+		for _, row := range env.Query(&bs.Query{}).Rows {
+			k, _ := json.Marshal(row)
+			again = append(again, string(k))
+		}
+		sort.Strings(again)
+		if fmt.Sprint(again) != fmt.Sprint(snaps) {
+			c.r.Add(Finding{Kind: "violation", Check: "row-aliasing", Detail: fmt.Sprintf("after the caller mutated the rows of one query, a later query over the same store returns different rows: %s -> %s", trunc(fmt.Sprint(snaps), 160), trunc(fmt.Sprint(again), 160)), Replay: map[string]any{"rows": len(batch), "seed": c.seed, "empty_rows": g%2 == 1}})
+		}
 		env.Stop()
 	}
 	// ---- (b) independence under concurrency with a poisoned pool
@@ -284,6 +301,15 @@ func runC03(c *ctx) {
 			for i := 0; i < 30; i++ {
 				id := g*10000 + b*100 + i
 				row := map[string]any{"_id": id, "s": genString(r) + strings.Repeat("z", r.IntN(200)), "n": map[string]any{"k": []any{genString(r), i}}}
+				if i%10 == 3 {
+					// large rows (8 KiB .. 70 KiB, many keys): materialisation may take another path for them
+					wide := map[string]any{}
+					for k := 0; k < 24; k++ {
+						wide[fmt.Sprintf("key_%d_%d", id, k)] = strings.Repeat(string(rune('a'+k)), 20)
+					}
+					row["wide"] = wide
+					row["pad"] = strings.Repeat("p", pick(r, []int{8100, 8300, 12000, 33000, 70000}))
+				}
 				batch = append(batch, row)
 			}
 			env.IngestWait(batch)
